@@ -40,6 +40,20 @@ Clause(e) ==
               IF x # "EITHER" /\ e.res # x THEN "C08.GoalReached/moved-verdict"
               ELSE IF e.res = "T" /\ ~MovedIndexOk(e.goal, e.mv, e.traj, e.idx) THEN "C08.GoalReached/moved-index"
               ELSE ""
+    (* goal read from a file (e.fmt); then e.hist = the scenario ("scn") / planning-problem-set ("pps") motions by e.mv *)
+    [] e.op = "file_is_reached" ->
+         IF ~Admissible(e.goal, e.state) \/ ~AdmMove(e.mv) \/ ~AdmHist(e.hist) THEN "driver/inadmissible-input"
+         ELSE IF e.res \notin {"T", "F"} THEN "C08.Total/file"
+         ELSE LET x == FileReached(e.goal, e.mv, e.hist, e.state) IN
+              IF x # "EITHER" /\ e.res # x THEN "C08.Reached/file" ELSE ""
+    [] e.op = "file_goal_reached" ->
+         IF (\E i \in DOMAIN e.traj : ~Admissible(e.goal, e.traj[i])) \/ ~AdmMove(e.mv) \/ ~AdmHist(e.hist)
+         THEN "driver/inadmissible-input"
+         ELSE IF e.res \notin {"T", "F"} THEN "C08.Total/file"
+         ELSE LET x == FileGoalReachedV(e.goal, e.mv, e.hist, e.traj) IN
+              IF x # "EITHER" /\ e.res # x THEN "C08.GoalReached/file-verdict"
+              ELSE IF e.res = "T" /\ ~FileIndexOk(e.goal, e.mv, e.hist, e.traj, e.idx) THEN "C08.GoalReached/file-index"
+              ELSE ""
     [] OTHER -> "machinery/unknown-op"
 
 TInit == tid \in 1..Len(Traces) /\ l = 1 /\ err = 0
